@@ -7,8 +7,10 @@ name = sys.argv[1]
 extra = sys.argv[2:]
 out = "/tmp/vx/%s.rs" % name
 os.makedirs("/tmp/vx", exist_ok=True)
-t, side = assemble.assemble(json.load(open(os.path.join(assemble.ROOT, "units/%s.json" % name))))
+t, ct, side = assemble.assemble(json.load(open(os.path.join(assemble.ROOT, "units/%s.json" % name))))
 open(out, "w").write(t)
+cout = "/tmp/vx/%s_canary.rs" % name
+open(cout, "w").write(ct)
 json.dump(side, open("/tmp/vx/%s.side.json" % name, "w"), indent=1)
 r = verus_run.run_verus(out, extra=extra)
 c = verus_run.classify(r, side, out)
@@ -19,6 +21,8 @@ for e in c["resource"]:
     print("RESOURCE", e)
 for o in c["failed"]:
     print("FAIL %-18s fn=%s label=%s callee=%s line=%s :: %s" % (o["kind"], o["fn"], o["label"], o["callee"], o["line"], o["site_text"][:110]))
+cr = verus_run.run_verus(cout, extra=["--verify-only-module", "canary", "--triggers-mode", "silent"], threads=4)
+c["canary_hits"] = verus_run.classify(cr, side, cout)["canary_hits"]
 exp = {x["name"] for x in side["canaries"]}
 print("canaries rejected %d/%d" % (len(set(c["canary_hits"]) & exp), len(exp)), "NOT rejected:", sorted(exp - set(c["canary_hits"])))
 if r["rc"] not in (0, 1) or (not r["diags"] and r["rc"] != 0):
